@@ -296,12 +296,38 @@ def _hist_step(env: typing.Any, name: str, le: str) -> tw.Outcome:
     return ("ok", "<abandoned>")
 
 
+_wants: typing.Dict[typing.Tuple[str, str, str], tw.Outcome] = {}
+
+
+def _hist_want(ordinary: str, oflags: str, le: str) -> tw.Outcome:
+    """Stock's rendering of an ordinary template (the stock engine keeps no state between templates; memoised)."""
+    key = (ordinary, oflags, le)
+    if key not in _wants:
+        _wants[key] = tw.render("stock", oflags, le, _ORD[ordinary], [CTXS[0]])[0]
+    return _wants[key]
+
+
+def _hist_warm() -> None:
+    """Before children are forked: fill Python's own cache of compiled regular expressions with the patterns of the
+    bundled lexer (a Lexer built by its constructor and thrown away - the engine's memoised lexers are not touched) and
+    stock's renderings of the ordinary templates, so that the children do not pay for them again and again."""
+    if _wants:
+        return
+    import nunavut.jinja.jinja2.lexer as blexer
+
+    for flags in tw.FLAGS:
+        blexer.Lexer(_hist_env(flags, "lf"))
+        for le in tw.LINE_ENDINGS:
+            for o, _ in HIST_ORDINARY:
+                _hist_want(o, flags, le)
+
+
 def history_run(case: dict) -> typing.Dict[str, typing.Any]:
     """Runs, IN THIS PROCESS, the steps case['steps'] (events and ordinary templates) and then the ordinary template
     case['ordinary'] in the bundled engine; `want` is stock's rendering of the ordinary template."""
     flags, le, mode = case["flags"], case["le"], case["mode"]
     oflags = _OTHER_FLAGS[flags] if mode == "other_options_env" else flags  # options of the ordinary templates' Environment
-    want = tw.render("stock", oflags, le, _ORD[case["ordinary"]], [CTXS[0]])[0]
+    want = _hist_want(case["ordinary"], oflags, le)
     shared = _hist_env(flags, le)
 
     def env_for(name: str) -> typing.Any:
@@ -426,6 +452,7 @@ def history_work(chains: typing.List[dict]) -> dict:
     def bump(k: str, n: int = 1) -> None:
         st[k] = st.get(k, 0) + n
 
+    _hist_warm()
     for chain in chains:
         cases = _chain_cases(chain)
         results = _forked(lambda cs=cases: [history_run(c) for c in cs])  # [e..; o1; e..; o2; ...] in ONE child
